@@ -93,6 +93,27 @@ impl Check for Random {
     }
 }
 
+/// Raw bytes as text (libFuzzer target): lossy UTF-8 decoding, both oracles.
+pub struct RawText;
+
+impl Check for RawText {
+    fn part(&self) -> &'static str {
+        "raw-utf8-text"
+    }
+    fn max_len(&self) -> usize {
+        400
+    }
+    fn run(&self, bytes: &[u8]) -> CaseResult {
+        let text = String::from_utf8_lossy(bytes).to_string();
+        let mut r = CaseResult::new(fnv(text.as_bytes()));
+        check_text(&text, &mut r);
+        r
+    }
+    fn describe(&self, bytes: &[u8]) -> Value {
+        json!({ "text": String::from_utf8_lossy(bytes) })
+    }
+}
+
 /// Explicit strings over EXH_ALPHABET: each byte selects one symbol (monotone map).
 pub struct Explicit;
 
@@ -138,7 +159,7 @@ pub fn enumerate(max_len: usize) -> Vec<Vec<u8>> {
 }
 
 pub fn checks() -> Vec<Box<dyn Check>> {
-    vec![Box::new(Random), Box::new(Explicit)]
+    vec![Box::new(Random), Box::new(Explicit), Box::new(RawText)]
 }
 
 pub fn run(ctx: &Ctx) -> i32 {
@@ -147,6 +168,9 @@ pub fn run(ctx: &Ctx) -> i32 {
     let exh = enumerate(if ctx.thorough() { 5 } else { 4 });
     parts.push(run_list(ctx, &Explicit, "exhaustive-short-texts", &exh, true));
     parts.push(run_pbt(ctx, &Random, ctx.n(200_000, 4_000_000)));
+    if ctx.thorough() {
+        parts.push(fuzz_part(ctx, "c06_lex_raw", &RawText, 3_000_000, 400));
+    }
     finish(
         ctx,
         parts,
